@@ -174,6 +174,8 @@ def check(ctx):
     cfgs = ["F0", "F1", "F1N"] if ctx.tier == "quick" else ["F0", "F1", "F1N", "F2", "F0N", "F2N"]
     ctx.need(*cfgs)
     for cfg in cfgs:
+        from ..rules import check_no_generic_zeroed as _cz
+        _cz(ctx, cfg, "C11.Z0")
         check_const_transmute(ctx, cfg)
         n = check_owned(ctx, cfg)
         for key, mode in REFS:
